@@ -39,7 +39,7 @@ def gen_case(rnd):
         if r < .4: hist.append(['set', rnd.choice(names), rnd.randint(-3, 11)])
         elif r < .75:
             sets = [[rnd.choice(names), rnd.randint(-3, 11)] for _ in range(rnd.randint(0, 3))]
-            hist.append(['call', sets, rnd.random() < .2, rnd.randint(0, 9)] + ([rnd.choice(['patch', 'validate', 'deal', 'd', 'id', 'items', 'update'])] if rnd.random() < .35 else []))
+            hist.append(['call', sets, rnd.random() < .2, rnd.randint(0, 9)] + ([rnd.choice(['patch', 'validate', 'deal', 'd', 'id', 'items', 'update', 'c_raises', 'c_has', 'c_pre', 'c_raises', 'c_has', 'c_pre'])] if rnd.random() < .45 else []))
         elif r < .9: hist.append(['static', rnd.randint(0, 9)])
         else: hist.append(['switch', rnd.random() < .5])
     sub = rnd.random() < .3
@@ -110,6 +110,9 @@ def monitor(c, r):
         holds = inv_holds(c, attrs)
         if enabled and o[0] in ('set', 'call') and res.startswith('ok') and holds is False:
             out.append((f'{o} completed without a violation error but leaves an invariant false: {attrs}', tag)); break
+        if enabled and o[0] in ('set', 'call') and holds is False and prev is not None and attrs != prev and res != 'InvContractError' \
+                and not res.startswith('ok') and not res.startswith('exc KeyError') and not res.startswith('exc AttributeError'):
+            out.append((f'{o} leaves an invariant false ({attrs}) but raised {res!r}, not the invariant-violation error', tag)); break
         if enabled and o[0] == 'call' and prev is not None and inv_holds(c, prev) is False and attrs != prev:
             out.append((f'method entered although an invariant was already false: state {prev} -> {attrs}', tag)); break
         if not enabled and res == 'InvContractError':
